@@ -24,6 +24,9 @@ ASSUMPTIONS = ['getattr on builtin attributes and int() of exotic strings are ou
 EXHAUSTIVE = {'quick': False, 'thorough': False}
 
 
+BUILTIN_ATTRS = ['count', 'index', '__len__', '__class__', 'keys', 'items', 'append', 'pop', 'get', '__doc__']
+
+
 def corpus():
     t = {'k': 'dict', 'od': False, 'id': 1, 'items': [['a', {'k': 'dict', 'od': False, 'id': 2, 'items': [['b', None]]}]]}
     lst = {'k': 'list', 'id': 1, 'items': [{'k': 'dict', 'od': False, 'id': 2, 'items': [['k0', 5]]}, 7]}
@@ -38,6 +41,9 @@ def corpus():
         {'target': lst, 'style': 'parts', 'parts': [{'v': 0}, {'t': [['[', 'k0']]}]},
         {'target': lst, 'style': 'parts', 'parts': [{'v': None}]},
         {'target': 5, 'style': 'text', 'text': 'a', 'star': True},
+        {'target': {'k': 'tuple', 'id': 1, 'items': [1, 2]}, 'style': 'text', 'text': 'count', 'star': True},
+        {'target': {'k': 'dict', 'od': False, 'id': 1, 'items': [['t', {'k': 'tuple', 'id': 2, 'items': [1, lst]}]]}, 'style': 'text', 'text': 't.1.__len__.x', 'star': True},
+        {'target': lst, 'style': 'parts', 'parts': [{'v': 'index'}, {'v': 0}]},
         {'target': t, 'style': 'text', 'text': '', 'star': True},
         {'target': t, 'style': 'text', 'text': 'a..b', 'star': True},
     ]
@@ -61,7 +67,11 @@ def _walk(rng, node, planted_bad, maxlen, text_only):
         if text_only:
             valid = [v for v in valid if isinstance(v, str) and '.' not in v and v not in ('*', '**', '')]
         if i == bad_at or not valid:
-            seg = rng.choice(['zz', 'a', 'b', 'k1', '7', '-9', 'x']) if text_only else rng.choice(['zz', 'a', 'k1', 7, -9, None, '7', 'x.y', True])
+            if isinstance(cur, dict) and cur.get('k') in ('list', 'tuple', 'dict') and rng.random() < 0.3:
+                # names that are attributes of the builtin containers: a list / tuple segment is an index, never an attribute
+                seg = rng.choice(BUILTIN_ATTRS)
+            else:
+                seg = rng.choice(['zz', 'a', 'b', 'k1', '7', '-9', 'x']) if text_only else rng.choice(['zz', 'a', 'k1', 7, -9, None, '7', 'x.y', True])
             segs.append(seg)
             cur = _step(cur, seg)
         else:
